@@ -248,6 +248,43 @@ def chain_program(rng, w, n, geometry='plain'):
     return w, img.to_case(rng), ['chain']
 
 
+def cycle_program(rng, w):
+    """a program that never halts: op 0 -> a prologue of ops that write output bits -> a cycle of >= 2 ops (aligned or
+    unaligned, in 4-word slots) that keep flipping bits of a scratch area (sometimes in a second, far segment).
+    returns (w, case_segs, tags, n_outputs)"""
+    ww = w.bit_length() - 1
+    dw = 2 * w
+    n_pro = rng.randrange(1, 4)
+    n_cyc = rng.randrange(2, 6)
+    slots = n_pro + n_cyc
+    code_words = 4 + 4 * slots
+    scratch_n = 8
+    far = w >= 32 and rng.random() < 0.4
+    if far:
+        fs = rng.choice([1 << 14, (1 << 14) + 100, 5 << 14])
+        segs = [[0, code_words + 2], [fs, scratch_n]]
+        scratch = fs
+    else:
+        segs = [[0, code_words + 2 + scratch_n]]
+        scratch = code_words + 2
+    img = Image(w, segs)
+    unaligned = rng.random() < 0.6
+    addr = []
+    for k in range(slots):
+        off = rng.randrange(1, w) if (unaligned and k >= n_pro and rng.random() < 0.7) else 0
+        addr.append(((4 + 4 * k) << ww) + off)
+    img.place_op(0, (scratch << ww) + rng.randrange(w), addr[0])
+    for k in range(slots):
+        if k < n_pro:
+            f = rng.choice([dw, dw + 1])
+        else:
+            f = ((scratch + rng.randrange(scratch_n)) << ww) + rng.randrange(w)
+        j = addr[k + 1] if k + 1 < slots else addr[n_pro]
+        img.place_op(addr[k], f, j)
+    tags = ['cycle', 'unaligned-cycle' if unaligned else 'aligned-cycle'] + (['far-scratch'] if far else [])
+    return w, img.to_case(rng), tags, n_pro
+
+
 def directed_native_case(rng):
     """images + knobs aimed at the cold paths of the native loops. returns (w, case_segs, tags, knobs)"""
     kind = rng.choice(['cache-collision', 'page-straddle', 'window-edge', 'tiny-window-input', 'ring-flat-lane',
